@@ -217,6 +217,12 @@ func runC09(env *Env, tier string) {
 	if ch.Chance("chunk", 1, 3) {
 		c.ChunkSize = 1 + ch.Choose("chunksize", 3)
 	}
+	if ch.Chance("textprobe", 1, 4) {
+		c09TextProbe(env)
+		if env.Failed() {
+			return
+		}
+	}
 	s := StartSut(env, c)
 	p := s.P
 	rate := 3 + ch.Choose("rate", 5) // tenths
